@@ -1005,6 +1005,7 @@ def ex_embed(p, seed):
     # statistics
     n_stat = 0
     worst = 0.0
+    failed_tags = set()
 
     def compare(p_in, p_emb, tag, partners):
         nonlocal n_stat, worst
@@ -1015,7 +1016,10 @@ def ex_embed(p, seed):
         if abs(p_in.sum() - 1) > 1e-9:
             raise AssertionError("harness: reference statistics do not sum to one")
         if dev > ATOL:
-            out.fail("%s:statistics:%s:%s" % (site, tag, src), "%s with %s: qutrit %r embedded %r" % (label, partners, np.round(p_in, 6), np.round(p_emb, 6)))
+            out.count("emb_stats_deviating")
+            if tag not in failed_tags:          # one report per (case, chain shape); the counter has the total
+                failed_tags.add(tag)
+                out.fail("%s:statistics:%s:%s" % (site, tag, src), "%s with %s: qutrit %r embedded %r" % (label, partners, np.round(p_in, 6), np.round(p_emb, 6)))
         if p_in.max() < 1 - 1e-6:
             out.count("emb_stats_nondeterministic")
 
